@@ -11,7 +11,284 @@ is the coordinate given to the k-th compressed row.  `lcx/factor` is Python floa
 `int(...)` truncation, so the generated definition goes through `Float` exactly as the code does;
 `Properties/C15.lean` proves (kernel evaluation, all factors 1..64 and all residuals < factor) that
 this offset is 0, and proves everything else for every factor about the offset-free coordinate.
+
+Deepening round: the keyword arithmetic is regenerated too, from small Python functions that the slicers below
+cut out of the AST of the tree under test and write to a scratch file:
+
+  crpix_c / crpix_e       the assignments to header['CRPIX1'], header['CRPIX2'] of compress / expand  (real mode)
+  key1_c key2_c key1_e key2_e   the `if 'CDELTi' in header ... elif 'CDi_i' in header ... else: return None` dispatch:
+                          0 = neither (the code returns None), 1 = CDELTi is rescaled, 2 = CDi_i is rescaled (int mode)
+  up_a1 up_b1 up_a2 up_b2 / dn_a1 ...   what the chosen branch does to the keyword's value (real mode)
+  bn_c                    which value compress stores under BN_CFAC, BN_NPX1, BN_NPX2, BN_RPX1, BN_RPX2 (int mode)
+  out_shape               the two upper bounds of expand's `np.mgrid[0:..., 0:...]` (rows, columns of the result)
+  bn_deleted              bit mask of the BN_* keys expand deletes (1 CFAC, 2 NPX1, 4 NPX2, 8 RPX1, 16 RPX2)
+
+A branch that does anything else than one update of the keyword it tested, a second assignment to a CRPIX card, a call
+that is handed `header`, an mgrid that does not start at 0 ... is written as a call the translator rejects: the piece
+is UNTRANSLATABLE, the `...Hand` definition of Model/C15.lean stands in and only the correspondence ties it to the code.
 """
+
+import ast
+import hashlib
+import os
+import tempfile
+
+_F = 'AegeanTools/fits_tools.py'
+_BN = ['BN_CFAC', 'BN_NPX1', 'BN_NPX2', 'BN_RPX1', 'BN_RPX2']
+
+
+def _hkey(node):
+    """'KEY' if node is header['KEY'] else None"""
+    if isinstance(node, ast.Subscript) and ast.unparse(node.value) == 'header' and isinstance(node.slice, ast.Constant) \
+            and isinstance(node.slice.value, str):
+        return node.slice.value
+    return None
+
+
+class _HdrNames(ast.NodeTransformer):
+    """header['KEY'] -> variable named by `table[KEY]`; any other use of `header` is left (and will be rejected)"""
+    def __init__(self, table):
+        self.table = table
+
+    def visit_Subscript(self, node):
+        k = _hkey(node)
+        if k in self.table:
+            return ast.Name(id=self.table[k], ctx=ast.Load())
+        return self.generic_visit(node)
+
+
+def _src(node, table):
+    import copy
+    return ast.unparse(ast.fix_missing_locations(_HdrNames(table).visit(copy.deepcopy(node))))
+
+
+def _update_value(s, table):
+    """python source of the new value of header[K] for `header[K] = e` or `header[K] op= e`; (K, src) or None"""
+    if isinstance(s, ast.Assign) and len(s.targets) == 1 and _hkey(s.targets[0]):
+        return _hkey(s.targets[0]), _src(s.value, table)
+    if isinstance(s, ast.AugAssign) and _hkey(s.target):
+        op = {ast.Sub: '-', ast.Add: '+', ast.Mult: '*', ast.Div: '/'}.get(type(s.op))
+        if op is None:
+            return None
+        return _hkey(s.target), f"({_src(s.target, table)}) {op} ({_src(s.value, table)})"
+    return None
+
+
+def _header_escapes(fn):
+    """`header` handed to a call (other than as the object of `in`): its cards may change where we cannot see"""
+    for c in ast.walk(fn):
+        if isinstance(c, ast.Call):
+            for a in list(c.args) + [k.value for k in c.keywords]:
+                if isinstance(a, ast.Name) and a.id == 'header':
+                    if ast.unparse(c.func) not in ('is_compressed',):
+                        return True
+    return False
+
+
+def _all_stmts(fn):
+    for n in ast.walk(fn):
+        if isinstance(n, ast.stmt):
+            yield n
+
+
+def _crpix_slice(fn, tag):
+    name = 'crpix_' + tag
+    head = f"def {name}(crpix1, crpix2, factor):\n"
+    bad = lambda why: head + f"    crpix1 = untranslatable('{why}')\n    crpix2 = crpix1\n    return crpix1\n"   # noqa
+    if _header_escapes(fn):
+        return bad('header is passed to a call')
+    table = {'CRPIX1': 'crpix1', 'CRPIX2': 'crpix2'}
+    ups = []
+    for s in _all_stmts(fn):
+        u = _update_value(s, table) if isinstance(s, (ast.Assign, ast.AugAssign)) else None
+        if u and u[0] in table:
+            ups.append(u)
+    if sorted(k for k, _ in ups) != ['CRPIX1', 'CRPIX2']:
+        return bad('not exactly one update of each CRPIX card')
+    # both must be top-level statements of the function (unconditional)
+    top = [_update_value(s, table) for s in fn.body if isinstance(s, (ast.Assign, ast.AugAssign))]
+    if sorted(k for k, _ in [t for t in top if t and t[0] in table]) != ['CRPIX1', 'CRPIX2']:
+        return bad('a CRPIX update is conditional')
+    return head + "".join(f"    {table[k]} = {v}\n" for k, v in ups) + "    return crpix1\n"
+
+
+def _scale_slices(fn, tag):
+    """per axis: the dispatch on which keyword is present, and what each branch does to it"""
+    out = []
+    for axis, (ka, kb) in ((1, ('CDELT1', 'CD1_1')), (2, ('CDELT2', 'CD2_2'))):
+        kname, aname, bname = f"key{axis}_{tag}", f"{'up' if tag == 'c' else 'dn'}_a{axis}", f"{'up' if tag == 'c' else 'dn'}_b{axis}"
+        khead = f"def {kname}(has_a, has_b):\n"
+        def bad(why, kname=kname, aname=aname, bname=bname, khead=khead):
+            return (khead + f"    code = untranslatable('{why}')\n    return code\n\n"
+                    + f"def {aname}(v, factor):\n    v = untranslatable('{why}')\n    return v\n\n"
+                    + f"def {bname}(v, factor):\n    v = untranslatable('{why}')\n    return v\n")
+        chains = [s for s in fn.body if isinstance(s, ast.If) and isinstance(s.test, ast.Compare)
+                  and len(s.test.ops) == 1 and isinstance(s.test.ops[0], ast.In)
+                  and ast.unparse(s.test.comparators[0]) == 'header' and isinstance(s.test.left, ast.Constant)
+                  and s.test.left.value in (ka, kb)]
+        if len(chains) != 1 or _header_escapes(fn):
+            out.append(bad(f'{len(chains)} dispatch chains on {ka}/{kb}'))
+            continue
+        lines, vals, s, first, ok = [khead + "    code = 0\n"], {}, chains[0], True, True
+        while True:
+            key = s.test.left.value if (isinstance(s.test, ast.Compare) and isinstance(s.test.left, ast.Constant)
+                                        and isinstance(s.test.ops[0], ast.In)
+                                        and ast.unparse(s.test.comparators[0]) == 'header') else None
+            if key not in (ka, kb) or key in vals or len(s.body) != 1:
+                ok = False
+                break
+            u = _update_value(s.body[0], {key: 'v'})
+            if u is None or u[0] != key:
+                ok = False
+                break
+            vals[key] = u[1]
+            lines.append(f"    {'if' if first else 'elif'} has_{'a' if key == ka else 'b'} > 0:\n        code = {1 if key == ka else 2}\n")
+            first = False
+            if len(s.orelse) == 1 and isinstance(s.orelse[0], ast.If):
+                s = s.orelse[0]
+                continue
+            # the final else must give up (return / raise), otherwise "neither keyword" is not a refusal
+            if not s.orelse or not any(isinstance(x, (ast.Return, ast.Raise)) for x in s.orelse):
+                ok = False
+            break
+        # any other statement of the function touching these two cards makes the slice unsound
+        others = [x for x in _all_stmts(fn) if isinstance(x, (ast.Assign, ast.AugAssign, ast.Delete))
+                  and any(_hkey(t) in (ka, kb) for t in ast.walk(x) if isinstance(t, ast.Subscript)
+                          and isinstance(t.ctx, (ast.Store, ast.Del)))]
+        if not ok or len(others) != len(vals):
+            out.append(bad('dispatch chain not of the form: one update of the tested keyword per branch'))
+            continue
+        lines.append("    return code\n")
+        text = "".join(lines)
+        for nm, key in ((aname, ka), (bname, kb)):
+            if key in vals:
+                text += f"\ndef {nm}(v, factor):\n    v = {vals[key]}\n    return v\n"
+            else:   # this keyword is never rescaled: value unchanged (and the dispatch never returns its code)
+                text += f"\ndef {nm}(v, factor):\n    v = v + 0 * factor\n    return v\n"
+        out.append(text)
+    return "\n".join(out)
+
+
+def _bn_write_slice(fn):
+    head = "def bn_c(factor, naxis1, naxis2, lcx, lcy):\n"
+    table = {'NAXIS1': 'naxis1', 'NAXIS2': 'naxis2'}
+    vals = {}
+    for s in _all_stmts(fn):
+        if isinstance(s, ast.Assign) and len(s.targets) == 1 and _hkey(s.targets[0]) in _BN:
+            k = _hkey(s.targets[0])
+            v = s.value.elts[0] if isinstance(s.value, ast.Tuple) and s.value.elts else s.value   # (value, comment)
+            if k in vals or s not in fn.body:
+                vals = None
+                break
+            vals[k] = _src(v, table)
+    if not vals or sorted(vals) != sorted(_BN) or _header_escapes(fn):
+        w = "    cfac = untranslatable('BN_* cards not written exactly once, unconditionally')\n"
+        return head + w + "    npx1 = cfac\n    npx2 = cfac\n    rpx1 = cfac\n    rpx2 = cfac\n    return cfac\n"
+    return head + "".join(f"    {k[3:].lower()} = {vals[k]}\n" for k in _BN) + "    return cfac\n"
+
+
+def _out_shape_slice(fn):
+    head = "def out_shape(npx1, npx2):\n"
+    bad = head + "    out_rows = untranslatable('np.mgrid[0:…, 0:…] not found')\n    out_cols = out_rows\n    return out_rows\n"
+    grids = [n for n in ast.walk(fn) if isinstance(n, ast.Subscript) and ast.unparse(n.value) in ('np.mgrid', 'numpy.mgrid')]
+    if len(grids) != 1 or not isinstance(grids[0].slice, ast.Tuple) or len(grids[0].slice.elts) != 2:
+        return bad
+    table = {'BN_NPX1': 'npx1', 'BN_NPX2': 'npx2'}
+    ups = []
+    for e in grids[0].slice.elts:
+        if not isinstance(e, ast.Slice) or e.step is not None or e.upper is None or \
+                (e.lower is not None and ast.unparse(e.lower) != '0'):
+            return bad
+        ups.append(_src(e.upper, table))
+    return head + f"    out_rows = {ups[0]}\n    out_cols = {ups[1]}\n    return out_rows\n"
+
+
+def _deleted_slice(fn):
+    mask = 0
+    for s in _all_stmts(fn):
+        if isinstance(s, ast.Delete) and s in fn.body:
+            for t in s.targets:
+                if _hkey(t) in _BN:
+                    mask |= 1 << _BN.index(_hkey(t))
+    return f"def bn_deleted(dummy):\n    mask = {mask} + 0 * dummy\n    return mask\n"
+
+
+def _slices():
+    repo = os.environ.get('AEGEAN_REPO', '/repo')
+    try:
+        tree = ast.parse(open(os.path.join(repo, _F)).read())
+        fc = [n for n in ast.walk(tree) if isinstance(n, ast.FunctionDef) and n.name == 'compress'][0]
+        fe = [n for n in ast.walk(tree) if isinstance(n, ast.FunctionDef) and n.name == 'expand'][0]
+        text = "\n\n".join([_crpix_slice(fc, 'c'), _crpix_slice(fe, 'e'), _scale_slices(fc, 'c'), _scale_slices(fe, 'e'),
+                            _bn_write_slice(fc), _out_shape_slice(fe), _deleted_slice(fe)])
+    except Exception as exc:   # noqa
+        text = f"# slicing failed: {exc!r}\n"
+    d = os.path.join(tempfile.gettempdir(), 'verif-C15-slices')
+    os.makedirs(d, exist_ok=True)
+    path = os.path.join(d, 'compress_expand_' + hashlib.sha1(text.encode()).hexdigest()[:12] + '.py')
+    if not os.path.exists(path):
+        with open(path + '.tmp%d' % os.getpid(), 'w') as f:
+            f.write(text)
+        os.replace(path + '.tmp%d' % os.getpid(), path)
+    return path
+
+
+_S = _slices()
+_M = 'Aegean.Model.C15.'
+
+
+def _fbA(name, params, hand):
+    return f"def {name} {{α : Type}} [R α] ({' '.join(params)} : α) : α := {_M}{hand} {' '.join(params)}"
+
+
+def _fbN(name, params, hand):
+    return f"def {name} ({' '.join(params)} : Nat) : Nat := {_M}{hand} {' '.join(params)}"
+
+
+_CP = ['crpix1', 'crpix2', 'factor']
+_VP = ['v', 'factor']
+_KP = ['has_a', 'has_b']
+_BP = ['factor', 'naxis1', 'naxis2', 'lcx', 'lcy']
+
+_NEW = [
+    dict(file=_S, func='crpix_c', mode='real', params={p: 'A' for p in _CP},
+         outputs=[('crpix1', 'crpixC1'), ('crpix2', 'crpixC2')],
+         fallback={'crpixC1': _fbA('crpixC1', _CP, 'crpixC1Hand'), 'crpixC2': _fbA('crpixC2', _CP, 'crpixC2Hand')},
+         all_params=_CP),
+    dict(file=_S, func='crpix_e', mode='real', params={p: 'A' for p in _CP},
+         outputs=[('crpix1', 'crpixE1'), ('crpix2', 'crpixE2')],
+         fallback={'crpixE1': _fbA('crpixE1', _CP, 'crpixE1Hand'), 'crpixE2': _fbA('crpixE2', _CP, 'crpixE2Hand')},
+         all_params=_CP),
+]
+for _tag, _pre, _hand in (('c', 'up', 'upHand'), ('e', 'dn', 'dnHand')):
+    for _ax in (1, 2):
+        _NEW.append(dict(file=_S, func=f'key{_ax}_{_tag}', mode='int', params={p: 'N' for p in _KP},
+                         outputs=[('code', f'key{_tag.upper()}{_ax}')],
+                         fallback={f'key{_tag.upper()}{_ax}': _fbN(f'key{_tag.upper()}{_ax}', _KP, 'keyHand')},
+                         all_params=_KP))
+        for _ab in 'ab':
+            _nm = f'{_pre}{_ab.upper()}{_ax}'
+            _NEW.append(dict(file=_S, func=f'{_pre}_{_ab}{_ax}', mode='real', params={p: 'A' for p in _VP},
+                             outputs=[('v', _nm)], fallback={_nm: _fbA(_nm, _VP, _hand)}, all_params=_VP))
+_NEW += [
+    dict(file=_S, func='bn_c', mode='int', params={p: 'N' for p in _BP},
+         outputs=[('cfac', 'bnCfac'), ('npx1', 'bnNpx1'), ('npx2', 'bnNpx2'), ('rpx1', 'bnRpx1'), ('rpx2', 'bnRpx2')],
+         fallback={'bnCfac': _fbN('bnCfac', _BP, 'bnCfacHand'), 'bnNpx1': _fbN('bnNpx1', _BP, 'bnNpx1Hand'),
+                   'bnNpx2': _fbN('bnNpx2', _BP, 'bnNpx2Hand'), 'bnRpx1': _fbN('bnRpx1', _BP, 'bnRpx1Hand'),
+                   'bnRpx2': _fbN('bnRpx2', _BP, 'bnRpx2Hand')},
+         all_params=_BP),
+    dict(file=_S, func='out_shape', mode='int', params={'npx1': 'N', 'npx2': 'N'},
+         outputs=[('out_rows', 'outRows'), ('out_cols', 'outCols')],
+         fallback={'outRows': _fbN('outRows', ['npx1', 'npx2'], 'outRowsHand'),
+                   'outCols': _fbN('outCols', ['npx1', 'npx2'], 'outColsHand')},
+         all_params=['npx1', 'npx2']),
+    dict(file=_S, func='bn_deleted', mode='int', params={'dummy': 'N'},
+         outputs=[('mask', 'bnDeleted')],
+         fallback={'bnDeleted': _fbN('bnDeleted', ['dummy'], 'bnDeletedHand')},
+         all_params=['dummy']),
+]
+
+
 TARGETS = [
     dict(file='AegeanTools/fits_tools.py', func='compress', mode='int',
          params={'rows': 'N', 'cols': 'N', 'factor': 'N'},
@@ -31,3 +308,4 @@ TARGETS = [
                    'nodeCol': 'def nodeCol (k rpx1 rpx2 factor : Nat) : Nat := Aegean.Model.C15.nodeHand k rpx1 factor'},
          all_params=['k', 'rpx1', 'rpx2', 'factor']),
 ]
+TARGETS += _NEW
